@@ -304,7 +304,7 @@ fn exhaustive(out: &mut Out, maxlen: usize) {
                 for style in 0..3 {
                     let mut ops = vec![];
                     // negotiation phase: alternate polls and deliveries
-                    let rounds = if style == 0 { 160 } else { 12 };
+                    let rounds = if style == 0 { 80 } else { 10 };
                     for r in 0..rounds {
                         ops.push(op("pd"));
                         ops.push(dl(0, if style == 0 { 1 } else { -1 }));
@@ -373,7 +373,9 @@ fn random(out: &mut Out, seed: u64, runs: u64) {
 }
 
 pub fn main(a: &vcommon::Args) {
-    vcommon::quiet_panics();
+    if std::env::var("VERIF_LOUD").is_err() {
+        vcommon::quiet_panics();
+    }
     match a.get(0) {
         "replay" => {
             let scheds = vcommon::read_schedules(a.get(1));
